@@ -772,6 +772,28 @@ class Prov:
             q = t[1].get("q") or ""
             if t[2] and self.transparent(t[1]):
                 return self._wrap(self.root(fn, t[2][0], depth + 1, seen), fs)
+            # `Ok(v)?` is v: the Continue payload of a `?` on a Result that was built by an `Ok(..)` literal in this body
+            # (directly, or as the only Ok definition of a local whose other definitions are errors - the return value of
+            # a helper inlined by vlib/inline.py)
+            if fs[:2] == ("@Continue", "0") and t[2] and re.search(r"as std::ops::Try>::branch$", q):
+                a = self.root(fn, t[2][0], depth + 1, seen)
+                okop = None
+                if a[0] == "agg" and a[1].endswith("result::Result") and a[2] == "Ok" and a[3] >= 0:
+                    okop = fn.blocks[a[3]]["s"][a[4]][2][4][0]
+                elif a[0] == "local" and not a[3]:
+                    oks, bad = [], False
+                    for d in fn.defs().get(a[1], []):
+                        if d[2] == "assign" and d[3][0] == "agg" and d[3][1].endswith("result::Result"):
+                            if d[3][2] == "Ok":
+                                oks.append(d[3][4][0])
+                        elif d[2] == "call" and "from_residual" in (d[3][1].get("q") or ""):
+                            pass
+                        else:
+                            bad = True
+                    if len(oks) == 1 and not bad:
+                        okop = oks[0]
+                if okop is not None:
+                    return self._wrap(self.root(fn, okop, depth + 1, seen), fs[2:])
             # `x.unwrap_or(false)` / `unwrap_or(0)` is `x.unwrap_or_default()`
             if self.mode == "value" and len(t[2]) == 2 and re.search(r"^std::(option::Option::<T>|result::Result::<T, E>)::unwrap_or$", q) \
                     and t[2][1][0] == "k" and t[2][1][1].get("int") == "0":
